@@ -5,10 +5,13 @@ import (
 	"os"
 	"strings"
 	"sync"
+	"sync/atomic"
+	"time"
 
 	"github.com/AdguardTeam/urlfilter"
 	"github.com/AdguardTeam/urlfilter/filterlist"
 	"github.com/AdguardTeam/urlfilter/rules"
+	shim "github.com/AdguardTeam/urlfilter/verifshim"
 
 	"verif/enum"
 	"verif/ev"
@@ -20,7 +23,7 @@ import (
 
 var c19Lists = []scen.ListSpec{
 	{ID: 1, Text: "! list 1 (file)\n||example.org^\n||example.org/ads\n/ex[a-z]+le\\.net/\n/ad$domain=example.org\n@@||example.org^$generichide\n##.g1\nexample.org##.s1\n"},
-	{ID: 2, Text: "# list 2 (file)\n||ads.example.com^\n0.0.0.0 example.org\n:: example.org\n127.0.0.1 hosts.test alias.test\n||blocked.test^$client=10.0.0.1\n/h[o0]sts\\.test/\n||rw.test^$dnsrewrite=1.2.3.4\n"},
+	{ID: 2, Text: "# list 2 (file)\n||ads.example.com^\n0.0.0.0 example.org\n:: example.org\n127.0.0.1 hosts.test alias.test\n||blocked.test^$client=10.0.0.1\n/h[o0]sts\\.test/\n||rw.test^$dnsrewrite=1.2.3.4\n0.0.0.0 shared.test\n0.0.0.0 only.test shared.test\n||shared2.test^\n||only2.test^$important\n"},
 }
 
 var c19StringList = scen.ListSpec{ID: 3, Text: "||string.test^\n0.0.0.0 string-host.test\n"}
@@ -37,6 +40,10 @@ func c19Queries() []scen.Query {
 		{Kind: "netall", URL: "http://string.test/", Type: rules.TypeScript},
 		{Kind: "dns", Host: "string-host.test", DNSType: 1},
 		{Kind: "dns", Host: "rw.test", DNSType: 1},
+		// two host rules in one bucket: the later one can be in memory (through its
+		// other name) while the earlier one is not
+		{Kind: "dns", Host: "only.test", DNSType: 1},
+		{Kind: "dns", Host: "shared.test", DNSType: 1},
 	}
 }
 
@@ -132,6 +139,8 @@ func c19Result(e *scen.Engines, q scen.Query) (texts []string, lie string) {
 func init() {
 	register("C19", "fault_enumeration", func(c *Ctx) {
 		scen.FileDir = os.Getenv("VERIF_WORK")
+		shim.DeadlockWait = 5 * time.Second
+		defer func() { shim.DeadlockWait = 0 }()
 		qs := c19Queries()
 		// fault-free oracle per query (fresh engines)
 		oracle := make([][]string, len(qs))
@@ -171,7 +180,11 @@ func init() {
 		// rules that can never be lost: held by pointer (seq-scan) or string-backed
 		alwaysServed := map[string]bool{"/ex[a-z]+le\\.net/": true, "/h[o0]sts\\.test/": true, "||string.test^": true, "0.0.0.0 string-host.test": true}
 
+		var abort atomic.Bool
 		runCase := func(hist []int, k, kind int) (evals int64) {
+			if abort.Load() {
+				return 0
+			}
 			e, st, fls := c19Build()
 			defer func() {
 				for _, fl := range fls {
@@ -211,6 +224,9 @@ func init() {
 				var lie string
 				evals++
 				if p := protect(func() { got, lie = c19Result(e, qs[h]) }); p != nil {
+					if strings.Contains(fmt.Sprint(p), "leaked lock") {
+						abort.Store(true) // every later case would wait for the same lock again
+					}
 					c.Run.Violate(ev.Violation{Pred: "no-crash", Sig: map[string]any{"query": qs[h].String(), "fault": c19FaultKinds[kind]},
 						What: fmt.Sprintf("%s panics after the fault: %v (%v)", qs[h], p, desc()), Replay: replay})
 					return evals
@@ -271,7 +287,7 @@ func init() {
 		var evals, cases int64
 		exhaustive := true
 		c.parallel(len(hists), func(i int) {
-			if c.Expired() {
+			if c.Expired() || abort.Load() {
 				mu.Lock()
 				exhaustive = false
 				mu.Unlock()
